@@ -78,6 +78,28 @@ func c07R1(a *A, r *Roles) {
 		return
 	}
 	a.hold(rule, "announce@"+r.Prepare.Name(), w.posOf(exec), "Exec(SET @master_binlog_checksum=@@global.binlog_checksum)")
+	if r.Prepare == r.NewConn {
+		// the constructor announces by itself: a connection is handed out only on the nil edge of the Exec's error
+		ok := true
+		for _, ret := range returnsOf(r.NewConn) {
+			if isNilConst(ret.Results[0]) {
+				continue
+			}
+			good := false
+			for _, ce := range dominatingConds(ret.Block()) {
+				x, nonNilOnTrue, isT := nilTest(ce.Cond)
+				if isT && x == ssa.Value(exec) && ce.Val != nonNilOnTrue {
+					good = true
+				}
+			}
+			if !good {
+				ok = false
+			}
+		}
+		a.check(ok, rule, "announce-path@"+r.NewConn.Name(), w.posOf(exec), "a connection is handed out only after the announcement succeeded", "a connection can be handed out without (or despite a failed) checksum announcement: the dump is requested anyway")
+		c07DumpAfterCtor(a, r)
+		return
+	}
 	// its failure edge returns a non-nil error; the call dominates every return
 	okDom := true
 	for _, ret := range returnsOf(r.Prepare) {
@@ -144,6 +166,12 @@ func c07R1(a *A, r *Roles) {
 		}
 	}
 	a.check(ok, rule, "announce-path@"+r.NewConn.Name(), w.posOf(prep), "a connection is handed out only after the announcement succeeded", "a connection can be handed out without (or despite a failed) checksum announcement: the dump is requested anyway")
+	c07DumpAfterCtor(a, r)
+}
+
+func c07DumpAfterCtor(a *A, r *Roles) {
+	const rule = "C07-R1"
+	w := a.W
 	// Stream: the constructor call dominates the dump start, which is on its success edge
 	var cerr ssa.Value
 	for _, ref := range *r.NewConnCall.Referrers() {
